@@ -71,12 +71,53 @@ impl DescribeErr for IfaceErr {
     }
 }
 
+/// A handler-local error type: converts into the contract's error, but has no `From<StdError>` of its own.
+#[derive(Debug, PartialEq)]
+pub enum LookupErr {
+    Code(u32),
+    Text(String),
+}
+impl fmt::Display for LookupErr {
+    fn fmt(&self, f: &mut fmt::Formatter<'_>) -> fmt::Result {
+        match self {
+            LookupErr::Code(c) => write!(f, "lookup error {c}"),
+            LookupErr::Text(t) => write!(f, "lookup: {t}"),
+        }
+    }
+}
+impl std::error::Error for LookupErr {}
+impl PlanErr for LookupErr {
+    fn own(code: u32) -> Self {
+        LookupErr::Code(code)
+    }
+    fn from_std(e: StdError) -> Self {
+        match e {
+            StdError::GenericErr { msg, .. } => LookupErr::Text(msg),
+            other => LookupErr::Text(other.to_string()),
+        }
+    }
+}
+impl DescribeErr for LookupErr {
+    fn describe(&self) -> Value {
+        match self {
+            LookupErr::Code(c) => json!({"ty": "LookupErr", "code": c}),
+            LookupErr::Text(t) => json!({"ty": "LookupErr", "text": t}),
+        }
+    }
+}
+
 /// Error type of contracts that declare `#[sv::error(MonErr)]`.
 #[derive(Debug, PartialEq)]
 pub enum MonErr {
     Std(StdError),
     Custom(u32),
     Iface(IfaceErr),
+    Lookup(LookupErr),
+}
+impl From<LookupErr> for MonErr {
+    fn from(e: LookupErr) -> Self {
+        MonErr::Lookup(e)
+    }
 }
 impl fmt::Display for MonErr {
     fn fmt(&self, f: &mut fmt::Formatter<'_>) -> fmt::Result {
@@ -84,6 +125,7 @@ impl fmt::Display for MonErr {
             MonErr::Std(e) => write!(f, "{e}"),
             MonErr::Custom(c) => write!(f, "contract custom error {c}"),
             MonErr::Iface(e) => write!(f, "via interface: {e}"),
+            MonErr::Lookup(e) => write!(f, "{e}"),
         }
     }
 }
@@ -112,6 +154,7 @@ impl DescribeErr for MonErr {
             MonErr::Std(e) => json!({"ty": "MonErr", "std": e.describe()}),
             MonErr::Custom(c) => json!({"ty": "MonErr", "custom": c}),
             MonErr::Iface(e) => json!({"ty": "MonErr", "iface": e.describe()}),
+            MonErr::Lookup(e) => json!({"ty": "MonErr", "lookup": e.describe()}),
         }
     }
 }
